@@ -24,6 +24,7 @@ import (
 	"sync"
 	"testing"
 	"testing/synctest"
+	"time"
 
 	"github.com/coinbase/kryptology/pkg/dkg/frost"
 	"github.com/coinbase/kryptology/pkg/sharing"
@@ -654,4 +655,140 @@ func runP2P(rt *rapid.T, maxN int) {
 	}
 	vstat.Max("frames_per_ceremony", int64(len(net.All)))
 	judge(rt, c, "p2p", order, res)
+}
+
+// TestC11OddDealer: one member deals polynomials with one coefficient too many (it runs the ceremony with
+// threshold t+1 while validating the others' messages against t, as a node built from a slightly different
+// configuration would). A correct cluster does not finish such a ceremony: the other members refuse its round-1
+// cast and nothing can be said. If the other members DO finish successfully, what they hold must satisfy the
+// property: one group key, and every t of their secret shares sign validly for it (with a joint polynomial of
+// degree t that needs t+1 shares).
+func TestC11OddDealer(t *testing.T) {
+	vstat.Rule("C11", "odd dealer: FROST over the in-memory network where one member deals with threshold t+1; asserts only if every other member finishes successfully: then any t of their secret shares must sign validly for the one group key they hold; non-trivial = the others finished")
+	rapid.Check(t, func(rt *rapid.T) {
+		rapid.SyncTest(rt, func(rt *rapid.T) { runOddDealer(rt) })
+	})
+}
+
+func runOddDealer(rt *rapid.T) {
+	n := rapid.IntRange(3, 5).Draw(rt, "n")
+	th := rapid.IntRange(2, n-1).Draw(rt, "t")
+	nv := rapid.IntRange(1, 2).Draw(rt, "validators")
+	odd := rapid.IntRange(0, n-1).Draw(rt, "oddMember")
+	session := []byte(fmt.Sprintf("session-odd-%d", rapid.IntRange(0, 1<<20).Draw(rt, "session")))
+	var peers []peer.ID
+	peerMap := map[peer.ID]cluster.NodeIdx{}
+	for i := 0; i < n; i++ {
+		id, err := p2p.PeerIDFromKey(nodeKey(i).PubKey())
+		if err != nil {
+			panic("HARNESS-ERROR: peer id: " + err.Error())
+		}
+		peers = append(peers, id)
+		peerMap[id] = cluster.NodeIdx{PeerIdx: i, ShareIdx: i + 1}
+	}
+	net := memnet.New()
+	tps := make([]*frostP2P, n)
+	for i := 0; i < n; i++ {
+		h := net.Host(peers[i])
+		tp, err := newFrostP2P(h, peerMap, bcast.New(h, peers, nodeKey(i), session), th, nv)
+		if err != nil {
+			panic("HARNESS-ERROR: newFrostP2P: " + err.Error())
+		}
+		tps[i] = tp
+	}
+	ctx, cancel := context.WithCancel(context.Background())
+	res := make([]nodeResult, n)
+	var mu sync.Mutex
+	done := map[int]bool{}
+	for i := 0; i < n; i++ {
+		nodeT := th
+		if i == odd {
+			nodeT = th + 1
+		}
+		go func() {
+			sh, err := runFrostParallel(ctx, tps[i], uint32(nv), uint32(n), uint32(nodeT), uint32(i+1), string(session))
+			mu.Lock()
+			res[i] = nodeResult{sh, err}
+			done[i] = true
+			mu.Unlock()
+		}()
+	}
+	synctest.Wait()
+	othersDone := func() bool {
+		mu.Lock()
+		defer mu.Unlock()
+		for i := 0; i < n; i++ {
+			if i != odd && !done[i] {
+				return false
+			}
+		}
+		return true
+	}
+	for steps := 0; steps < 20000 && !othersDone() && net.NPending() > 0; steps++ {
+		net.Deliver(net.Take(0))
+		synctest.Wait()
+	}
+	finished := othersDone()
+	cancel()
+	for net.NPending() > 0 {
+		net.Drop(net.Take(0))
+	}
+	synctest.Wait()
+	time.Sleep(2 * time.Minute) // receive timeouts of parked stream handlers (virtual)
+	synctest.Wait()
+	mu.Lock()
+	defer mu.Unlock()
+	ok := finished
+	for i := 0; i < n && ok; i++ {
+		if i != odd && (res[i].err != nil || len(res[i].shares) != nv) {
+			ok = false
+		}
+	}
+	if !ok {
+		vstat.Case("", false, "odd_dealer:ceremony_did_not_finish(nothing_to_judge)")
+		return
+	}
+	msg := []byte("verif-c11-odd-dealer")
+	for v := 0; v < nv; v++ {
+		var ref *tbls.PublicKey
+		var members []int
+		for i := 0; i < n; i++ {
+			if i == odd {
+				continue
+			}
+			pk := res[i].shares[v].PubKey
+			if ref == nil {
+				ref = &pk
+			} else if *ref != pk {
+				rt.Fatalf("GROUP KEY DIFFERS after a ceremony every regular member finished successfully (member %d dealt with threshold %d, the others %d)", odd, th+1, th)
+			}
+			members = append(members, i)
+		}
+		// every t-subset of the regular members (n <= 5: at most 6 subsets)
+		var rec func(start int, cur []int)
+		rec = func(start int, cur []int) {
+			if len(cur) == th {
+				sigs := map[int]tbls.Signature{}
+				for _, i := range cur {
+					s, err := tbls.Sign(res[i].shares[v].SecretShare, msg)
+					if err != nil {
+						rt.Fatalf("HARNESS-ERROR: sign: %v", err)
+					}
+					sigs[i+1] = s
+				}
+				agg, err := tbls.ThresholdAggregate(sigs)
+				if err != nil || tbls.Verify(*ref, msg, agg) != nil {
+					rt.Fatalf("T SHARES DO NOT SIGN: validator %d: the ceremony finished successfully on every regular member (n=%d t=%d, member %d dealt with threshold %d), but the secret shares of members %v do not produce a signature valid under the group key", v, n, th, odd, th+1, cur)
+				}
+				return
+			}
+			for i := start; i < len(members); i++ {
+				rec(i+1, append(append([]int{}, cur...), members[i]))
+			}
+		}
+		if len(members) >= th {
+			rec(0, nil)
+		}
+	}
+	vstat.Case(fmt.Sprintf("odd/%d/%d/%d/%d", n, th, nv, odd), true, "odd_dealer:others_finished")
 }
